@@ -4640,4 +4640,7 @@ mod test {
 // proof harnesses for this module in from the directory named by
 // DATAFUSION_VERIF_DIR so that they can reach private items.
 #[cfg(kani)]
-include!(concat!(env!("DATAFUSION_VERIF_DIR"), "/kani/physical_plan/repartition.rs"));
+include!(concat!(
+    env!("DATAFUSION_VERIF_DIR"),
+    "/kani/physical_plan/repartition.rs"
+));
